@@ -303,6 +303,22 @@ class Base:
         self.add("field", 1, start=L("int", "32"), size=L("int", "31"), tname="UInt", name="wu", owner="Wide", inbits=True, scalar=("UInt", 31), spare=True)
         self.add("field", 1, start=L("int", "63"), size=L("int", "1"), tname="Flag", name="wl", owner="Wide", inbits=True, scalar=("Flag", 1), spare=True, last_bit=True)
         # overlays: a longer field declared AFTER a shorter one that starts at the same / an inner offset
+        # a fixed-size parameterised struct (usable as an array element), a one-byte struct, and bits types
+        # whose members are ARRAYS of bit-oriented elements
+        self.add("head", 0, what="struct", name="PFix", params=[("k", "Aa"), ("n", "UInt:8")], owner="PFix")
+        self.struct_default("PFix")
+        self.add("field", 1, start=L("int", "0"), size=L("int", "1"), tname="UInt", name="pq", owner="PFix")
+        self.add("head", 0, what="struct", name="One", owner="One")
+        self.struct_default("One")
+        self.add("field", 1, start=L("int", "0"), size=L("int", "1"), tname="UInt", name="oo", owner="One")
+        self.add("head", 0, what="bits", name="Nib", owner="Nib")
+        self.add("field", 1, start=L("int", "0"), size=L("int", "4"), tname="UInt", name="nv", owner="Nib", inbits=True)
+        self.add("head", 0, what="bits", name="Arrb", owner="Arrb")
+        self.add("field", 1, start=L("int", "0"), size=L("int", "8"), tname="UInt", tbits=4, dims=[L("int", "2")], name="ba", owner="Arrb", inbits=True, bitarray=True)
+        self.add("field", 1, start=L("int", "8"), size=L("int", "4"), tname="Flag", dims=[L("int", "4")], name="bf", owner="Arrb", inbits=True, bitarray=True)
+        self.add("field", 1, start=L("int", "12"), size=L("int", "8"), tname="Nib", dims=[L("int", "2")], name="bo", owner="Arrb", inbits=True, bitarray=True)
+        self.add("field", 1, start=L("int", "20"), size=L("int", "8"), tname="UInt", tbits=2, dims=[L("int", "2"), L("int", "2")], name="bn", owner="Arrb", inbits=True, bitarray=True)
+        self.add("field", 1, start=L("int", "28"), size=L("int", "4"), tname="UInt", name="bpad", owner="Arrb", inbits=True)
         self.add("head", 0, what="struct", name="Over", owner="Over")
         self.struct_default("Over")
         self.add("field", 1, start=L("int", "0"), size=L("int", "1"), tname="UInt", name="tag", owner="Over")
@@ -332,6 +348,11 @@ class Base:
         self.add("field", 1, start=L("int", "31"), size=L("int", "8"), tname="Over", name="uo", owner="Unused", spare=True)
         self.add("field", 1, start=L("int", "39"), size=L("int", "6"), tname="Part", name="up", owner="Unused", spare=True)
         self.add("field", 1, start=L("int", "45"), size=L("int", "2"), tname="Ob", name="uob", owner="Unused", spare=True)
+        self.add("field", 1, start=L("int", "47"), size=L("int", "4"), tname="Arrb", name="uab", owner="Unused", spare=True)
+        self.add("anon_bits", 1, start=L("int", "51"), size=L("int", "2"), owner="Unused", spare=True)
+        self.add("field", 2, start=L("int", "0"), size=L("int", "8"), tname="UInt", tbits=4, dims=[L("int", "2")], name="aa", owner="Unused", inbits=True, bitarray=True)
+        self.add("field", 2, start=L("int", "8"), size=L("int", "4"), tname="Flag", dims=[L("int", "4")], name="af", owner="Unused", inbits=True, bitarray=True)
+        self.add("field", 2, start=L("int", "12"), size=L("int", "4"), tname="UInt", tbits=1, dims=[L("int", "2"), L("int", "2")], name="an", owner="Unused", inbits=True, bitarray=True)
         self.add("head", 0, what="struct", name="Inner", params=[("k", "Aa"), ("n", "UInt:8")], owner="Inner")
         self.struct_default("Inner")
         ienv = Env()
@@ -421,6 +442,16 @@ class Base:
         self.add("field", 1, start=L("int", str(off)), size=L("int", "fwsz"), tname="UInt", tbits=8, dims=[None], name="fdyn", owner="Main", array=True)
         self.add("field", 1, start=X("int", "+", [L("int", str(off)), L("int", "fwst")]), size=L("int", "1"), tname="UInt", name="fst", owner="Main", scalar=("UInt", 8))
         off += 2
+        # expressions at every nesting depth of a type: arguments inside array element types, three dimensions
+        self.add("field", 1, start=L("int", str(off)), size=L("int", "2"), tname="PFix", targs=[gs.enum_expr(1, "Aa"), gs.int_expr(1)],
+                 dims=[L("int", "2")], name="pa", owner="Main", passing=True, array=True)
+        off += 2
+        self.add("field", 1, start=L("int", str(off)), size=L("int", "8"), tname="PFix", targs=[L("enum:Aa", "en"), X("int", "$max", [L("int", "x"), gs.int_expr(1)])],
+                 dims=[L("int", "2"), X("int", "+", [L("int", "2"), L("int", "2")])], name="pb", owner="Main", passing=True, array=True)
+        off += 8
+        self.add("field", 1, start=L("int", str(off)), size=L("int", "24"), tname="UInt", tbits=8,
+                 dims=[L("int", "2"), X("int", "$max", [L("int", "3"), L("int", "1")]), L("int", "4")], name="cube", owner="Main", array=True)
+        off += 24
         # virtual fields
         nlet = r.randint(3, 6)
         for i in range(nlet):
@@ -646,8 +677,21 @@ def c13_violations(base, rng, per_rule=1):
             cases.append(Case(c.lines, rule, li + 1, doc_typed=False, cls="C13"))
     plant("field-start-not-integer", lambda l: l.kind in ("field", "anon_bits") and l.owner in base.envs, lambda t: "start", "int")
     plant("field-size-not-integer", lambda l: l.kind == "field" and l.owner in base.envs and not l.f.get("inbits"), lambda t: "size", "int")
-    plant("array-length-not-integer", lambda l: l.kind == "field" and l.owner in base.envs and any(d is not None for d in l.f.get("dims", [])),
-          lambda t: "dims:%d" % [i for i, d in enumerate(t.f["dims"]) if d is not None][0], "int")
+    # every dimension of every array, at every depth (inner, middle, outer): wrong kind, and an ill-typed length
+    for li, l in pos_sites(lambda l: l.kind == "field" and l.env is not None and l.f.get("dims")):
+        for di, d in enumerate(l.f["dims"]):
+            if d is None:
+                continue
+            depth = "%d-of-%d" % (di + 1, len(l.f["dims"]))
+            c = base.case()
+            c.lines[li].set_slot("dims:%d" % di, wrong("int", l.env, l))
+            cases.append(Case(c.lines, "array-length-not-integer", li + 1, doc_typed=False, cls="C13", note="dimension " + depth))
+            if len(l.f["dims"]) > 1:
+                g2 = ExprGen(rng, l.env, base.enums)
+                rule, bad = rng.choice(bad_expressions(rng, g2, "int", l.env))
+                c = base.case()
+                c.lines[li].set_slot("dims:%d" % di, bad)
+                cases.append(Case(c.lines, rule, li + 1, doc_typed=False, cls="C13", note="dimension " + depth))
     for li, l in pos_sites(lambda l: l.kind == "if"):
         env = _env_of(base, l) or Env()
         c = base.case()
@@ -685,7 +729,7 @@ def c13_violations(base, rng, per_rule=1):
         cases.append(Case(c.lines, "enum-value-not-integer", li + 1, doc_typed=False, cls="C13"))
     # passed parameters
     ps = pos_sites(lambda l: l.kind == "field" and l.f.get("passing"))
-    for li, l in ps[:1]:
+    for li, l in ps:     # also the arguments inside array element types (pa, pb)
         env = _env_of(base, l)
         g = ExprGen(rng, env, base.enums)
         variants = [("parameter-too-few", [l.f["targs"][0]]),
@@ -891,6 +935,29 @@ def c14_cases(base, rng):
         tl = lines[inner]
         insert_after("array-element-dynamic-size", inner,
                      [Line("field", 1, start=I(200), size=I(6), tname="Inner", targs=tl.f["targs"], dims=[I(2)], name="dyn", owner="Main")])
+    # ---- per-type rules inside array ELEMENT types: named bits, anonymous bits, struct; 1-D and nested ----
+    for nm in ("ba", "bn", "aa", "an", "bo"):
+        i0 = named(nm)
+        if i0 is None:
+            continue
+        nd = len(lines[i0].f["dims"])
+        bits_total = int(lines[i0].f["size"].t)
+        if bits_total % 8 == 0:
+            edit("bits-byte-oriented-member:array-element-%dd" % nd, i0,
+                 setf(tname="One", tbits=None, dims=[I(1)] * (nd - 1) + [I(bits_total // 8)]))
+        edit("width-65:uint-array-element-in-bits-%dd" % nd, i0, setf(tname="UInt", tbits=65))
+        edit("width-0:uint-array-element-in-bits-%dd" % nd, i0, setf(tname="UInt", tbits=0))
+    edit("explicit-size-mismatch:flag-array-element", named("bf"), setf(tbits=2))
+    edit("explicit-size-mismatch:bits-array-element", named("bo"), setf(tbits=8))
+    edit("float-24-bits:array-element", named("bn"), setf(tname="Float", tbits=24))
+    edit("width-72:uint-array-element-in-struct", ua, setf(tbits=72))
+    edit("width-0:uint-array-element-in-struct", ua, setf(tbits=0))
+    edit("float-24-bits:array-element-in-struct", ua, setf(tname="Float", tbits=24))
+    edit("enum-field-wider-than-maximum-bits:array-element", ua, setf(tname="Bb", tbits=24))
+    edit("boundary-ok:enum-array-element", ua, setf(tname="Bb", tbits=8), ok=True)
+    edit("boundary-ok:float-array-element", ua, setf(tname="Float", tbits=32, dims=[I(1), I(2)]), ok=True)
+    edit("boundary-ok:flag-array-2d-in-bits", named("bn"), setf(tname="Flag", tbits=None, dims=[I(2), I(4)]), ok=True)
+    edit("boundary-ok:bits-array-in-anonymous-bits", named("aa"), setf(tname="Nib", tbits=None), ok=True)
     # ---- explicit sizes ----
     edit("explicit-size-mismatch:struct", named("us"), setf(tbits=24))
     edit("boundary-ok:explicit-size-equal", named("us"), setf(tbits=32), ok=True)
